@@ -128,3 +128,43 @@ pub open spec fn file_parsed<R>(d: Seq<u8>, start: int, size: u64, m: Mp4Reader<
     &&& rel_moov(d, Some(m.moov), top_last_of(d, start, size as int, BoxType::MoovBox, None))
     &&& rel_ftyp(d, Some(m.ftyp), top_last_of(d, start, size as int, BoxType::FtypBox, None))
 }
+
+// ---- movie fragments, decode side (no meta children here: plain sibling chain)
+pub open spec fn all_of(d: Seq<u8>, p: int, end: int, ty: BoxType, acc: Seq<int>) -> Seq<int>
+    decreases (if p < end { end - p } else { 0 })
+{
+    if p >= end || child_next(d, p) <= p { acc }
+    else if child_name(d, p) == ty { all_of(d, child_next(d, p), end, ty, acc.push(p)) }
+    else { all_of(d, child_next(d, p), end, ty, acc) }
+}
+pub open spec fn rel_tfhd(d: Seq<u8>, x: Option<TfhdBox>, g: Option<int>) -> bool { (x is Some <==> g is Some) && (x matches Some(b) ==> tfhd_at(d, child_q(d, g->Some_0) - 8, b)) }
+pub open spec fn rel_tfdt(d: Seq<u8>, x: Option<TfdtBox>, g: Option<int>) -> bool { (x is Some <==> g is Some) && (x matches Some(b) ==> tfdt_at(d, child_q(d, g->Some_0) - 8, b)) }
+pub open spec fn rel_trun(d: Seq<u8>, x: Option<TrunBox>, g: Option<int>) -> bool { (x is Some <==> g is Some) && (x matches Some(b) ==> trun_at(d, child_q(d, g->Some_0) - 8, b)) }
+pub open spec fn rel_mfhd(d: Seq<u8>, x: Option<MfhdBox>, g: Option<int>) -> bool { (x is Some <==> g is Some) && (x matches Some(b) ==> mfhd_at(d, child_q(d, g->Some_0) - 8, b)) }
+pub open spec fn traf_at(d: Seq<u8>, q: int, size: u64, b: TrafBox) -> bool {
+    &&& rel_tfhd(d, Some(b.tfhd), child_at(d, q, size, BoxType::TfhdBox))
+    &&& rel_tfdt(d, b.tfdt, child_at(d, q, size, BoxType::TfdtBox))
+    &&& rel_trun(d, b.trun, child_at(d, q, size, BoxType::TrunBox))
+}
+pub open spec fn trafs_rel(d: Seq<u8>, v: Seq<TrafBox>, g: Seq<int>) -> bool {
+    v.len() == g.len() && forall|i: int| 0 <= i < v.len() ==> traf_at(d, child_q(d, g[i]), child_size(d, g[i]), #[trigger] v[i])
+}
+pub open spec fn moof_at(d: Seq<u8>, q: int, size: u64, b: MoofBox) -> bool {
+    &&& rel_mfhd(d, Some(b.mfhd), child_at(d, q, size, BoxType::MfhdBox))
+    &&& trafs_rel(d, b.trafs@, all_of(d, q, q - 8 + size, BoxType::TrafBox, Seq::empty()))
+}
+
+pub open spec fn top_all_of(d: Seq<u8>, p: int, end: int, ty: BoxType, acc: Seq<int>) -> Seq<int>
+    decreases (if p < end { end - p } else { 0 })
+{
+    if p >= end || child_size(d, p) == 0 || child_next(d, p) <= p { acc }
+    else if child_name(d, p) == ty { top_all_of(d, child_next(d, p), end, ty, acc.push(p)) }
+    else { top_all_of(d, child_next(d, p), end, ty, acc) }
+}
+/// the fragments collected while opening a file: in file order, each with the position of the first byte of its moof box
+/// (the base of default data offsets, ISO/IEC 14496-12 8.8.7 default-base-is-moof / 8.8.8)
+pub open spec fn moofs_rel(d: Seq<u8>, v: Seq<MoofBox>, offs: Seq<u64>, g: Seq<int>) -> bool {
+    &&& v.len() == g.len() && offs.len() == g.len()
+    &&& forall|i: int| 0 <= i < g.len() ==> (#[trigger] offs[i]) == g[i]
+    &&& forall|i: int| 0 <= i < g.len() ==> moof_at(d, child_q(d, g[i]), child_size(d, g[i]), #[trigger] v[i])
+}
